@@ -158,6 +158,76 @@ class Path:
         return "\n".join(lines)
 
 
+_COLLECT_CACHE = {}
+
+
+def _collect_loops(stmts):
+    """`L = []` directly followed by `for T in IT: L.append(E)` (or `if c: L.append(E)`) is the comprehension `L = [E for T in IT if c]`
+    (bytearray() likewise): the statements are replaced by that assignment, so both spellings give the same comprehension term."""
+    key = tuple(id(x) for x in stmts)
+    hit = _COLLECT_CACHE.get(key)
+    if hit is not None and hit[0] is stmts:
+        return hit[1]
+    out = []
+    i = 0
+    changed = False
+    while i < len(stmts):
+        a = stmts[i]
+        b = stmts[i + 1] if i + 1 < len(stmts) else None
+        new = _collect_pair(a, b) if b is not None else None
+        if new is not None:
+            # a for loop leaves its target bound, a comprehension does not
+            tnames = {x.id for x in ast.walk(b.target) if isinstance(x, ast.Name)}
+            if any(isinstance(x, ast.Name) and x.id in tnames for later in stmts[i + 2:] for x in ast.walk(later)):
+                new = None
+        if new is not None:
+            out.append(new)
+            i += 2
+            changed = True
+        else:
+            out.append(a)
+            i += 1
+    res = out if changed else stmts
+    _COLLECT_CACHE[key] = (stmts, res)
+    return res
+
+
+def _collect_pair(a, b):
+    if not (isinstance(a, ast.Assign) and len(a.targets) == 1 and isinstance(a.targets[0], ast.Name) and isinstance(b, ast.For) and not b.orelse and len(b.body) == 1):
+        return None
+    name = a.targets[0].id
+    v = a.value
+    if isinstance(v, ast.List) and not v.elts:
+        kind = "list"
+    elif isinstance(v, ast.Call) and isinstance(v.func, ast.Name) and v.func.id in ("list", "bytearray") and not v.args and not v.keywords:
+        kind = v.func.id
+    else:
+        return None
+    inner = b.body[0]
+    conds = []
+    while isinstance(inner, ast.If) and not inner.orelse and len(inner.body) == 1:
+        conds.append(inner.test)
+        inner = inner.body[0]
+    if not (isinstance(inner, ast.Expr) and isinstance(inner.value, ast.Call) and isinstance(inner.value.func, ast.Attribute) and inner.value.func.attr == "append"
+            and isinstance(inner.value.func.value, ast.Name) and inner.value.func.value.id == name and len(inner.value.args) == 1 and not inner.value.keywords):
+        return None
+    elt = inner.value.args[0]
+    for part in [elt, b.iter, b.target] + conds:
+        if any(isinstance(x, ast.Name) and x.id == name for x in ast.walk(part)):
+            return None
+        if any(isinstance(x, (ast.Yield, ast.YieldFrom, ast.Await, ast.NamedExpr)) for x in ast.walk(part)):
+            return None
+    comp = ast.ListComp(elt=elt, generators=[ast.comprehension(target=b.target, iter=b.iter, ifs=conds, is_async=0)])
+    val = comp if kind == "list" else ast.Call(func=ast.Name(id="bytearray", ctx=ast.Load()), args=[comp], keywords=[])
+    new = ast.Assign(targets=[ast.Name(id=name, ctx=ast.Store())], value=val)
+    ast.copy_location(new, b)
+    ast.fix_missing_locations(new)
+    for x in ast.walk(new):
+        if not hasattr(x, "lineno"):
+            ast.copy_location(x, b)
+    return new
+
+
 def _induction_variables(paths, steps):
     """A variable of a `while True` loop that starts at an integer constant k and that every continuing iteration leaves one higher is the
     iteration index plus k: lv(name, loop, k) becomes idx(loop) + k, the term a `for i in itertools.count()` / enumerate loop binds."""
@@ -401,6 +471,8 @@ class Summariser:
     # ------------------------------------------------------------- statements
     def block(self, stmts, st):
         live = [(st, ("normal",))]
+        if os.environ.get("SA_NO_COLLECT_CANON") != "1":
+            stmts = _collect_loops(stmts)
         for stmt in stmts:
             nxt = []
             for s, out in live:
@@ -1290,6 +1362,10 @@ class Summariser:
             kws.append((k.arg if k.arg is not None else "**", self.expr(k.value, st)))
         args, kws = tuple(args), tuple(kws)
         kwd = dict(kws)
+        if isinstance(f, ast.Name) and f.id == "bytes" and "bytes" not in st.env and len(args) == 1 and not kws and args[0][0] == "call" \
+                and args[0][1] == ("free", "bytearray") and len(args[0][2]) == 1 and not args[0][3] and args[0][2][0][0] == "comp":
+            # bytes(bytearray(<comprehension>)) is bytes(<comprehension>): the intermediate mutable copy is not observable
+            args = args[0][2]
 
         if base is None:
             name = f.id if isinstance(f, ast.Name) else None
